@@ -166,6 +166,7 @@ class JetRun:
             setattr(rel, k, v)
         for k, v in self.inputs.items():
             rel.data[k] = v
+        rel.freeze_data()
         return rel
 
     def float_rel(self, model, N=13, h=0.05, fd_order=8):
@@ -188,6 +189,7 @@ class JetRun:
             fd.cartesian_coords = np.array([fd.x, fd.y, fd.z])
         for k, v in self.inputs.items():
             rel.data[k] = realise(v, model, fd, self.spatial_axes)
+        rel.freeze_data()
         return rel
 
 
@@ -223,7 +225,7 @@ def replay_jet(run, ob, model, resolutions=((13, 0.02), (13, 0.01)), rtol=1e-6):
         diffs.append(abs(v - oracle_v))
     scale = max(abs(oracle_v), abs(vals[-1]), 1e-12)
     reproduces = (diffs[-1] > rtol * scale) and (diffs[-1] > 0.25 * diffs[0] or diffs[-1] > 1e-3 * scale)
-    dag_agrees = abs(vals[-1] - impl_dag) <= 1e-5 * max(abs(impl_dag), abs(vals[-1]), 1e-9)
+    dag_agrees = abs(vals[-1] - impl_dag) <= 1e-5 * max(abs(impl_dag), abs(vals[-1])) + 1e-7
     return dict(oracle=oracle_v, impl_dag=impl_dag, code_values=vals, diffs=diffs,
                 reproduces=bool(reproduces), dag_matches_code=bool(dag_agrees))
 
